@@ -100,6 +100,19 @@ func genArbitraryDoc(t *rapid.T) string {
 	root := doc.CreateElement("samlp:AuthnRequest")
 	root.CreateAttr("xmlns:samlp", h.NSProtocol)
 	root.CreateAttr("ID", "_"+rapid.StringMatching(`[a-f0-9]{8}`).Draw(t, "docID"))
+	if rapid.IntRange(0, 2).Draw(t, "docLooksSigned") == 0 {
+		// a caller-supplied document that carries its own addressing and something that looks like a signature:
+		// where it is SENT is still the configured endpoint's business, not the document's
+		root.CreateAttr("Destination", rapid.SampledFrom([]string{"https://elsewhere.example.net/sso", "https://attacker.example/collect?x=1", "", "javascript:alert(1)"}).Draw(t, "docDestination"))
+		root.CreateAttr("AssertionConsumerServiceURL", "https://elsewhere.example.net/acs")
+		is := root.CreateElement("saml:Issuer")
+		is.CreateAttr("xmlns:saml", h.NSAssertion)
+		is.SetText("urn:someone")
+		sg := root.CreateElement("ds:Signature")
+		sg.CreateAttr("xmlns:ds", h.NSDsig)
+		sg.CreateElement("ds:SignedInfo")
+		sg.CreateElement("ds:SignatureValue").SetText("AAAA")
+	}
 	n := rapid.IntRange(0, 5).Draw(t, "docKids")
 	if rapid.IntRange(0, 5).Draw(t, "largeDoc") == 0 {
 		// several KB: crosses the buffer sizes of writers / encoders (4096, 8192, 32768)
